@@ -176,13 +176,16 @@ pub struct TextItem<C: Col> {
     pub alignment: Alignment,
     pub baseline: Baseline,
     pub line_height: LineHeight,
+    /// Which of the equivalent API routes builds the styles and the `Text` (0 = the plain builders):
+    /// bits 0..2 text style, bits 3..4 `Text` constructor, bits 5..6 character style.
+    pub route: u32,
 }
 
 impl<C: Col> TextItem<C> {
     pub fn font(&self) -> &'static MonoFont<'static> {
         FONTS[self.font].1
     }
-    pub fn char_style(&self) -> MonoTextStyle<'static, C> {
+    fn char_style_plain(&self) -> MonoTextStyle<'static, C> {
         let mut b = MonoTextStyleBuilder::new().font(self.font());
         if let Some(c) = self.text_color {
             b = b.text_color(c);
@@ -202,20 +205,111 @@ impl<C: Col> TextItem<C> {
         };
         b.build()
     }
+    pub fn char_style(&self) -> MonoTextStyle<'static, C> {
+        use embedded_graphics::text::renderer::CharacterStyle;
+        match (self.route >> 5) & 3 {
+            0 => self.char_style_plain(),
+            // round trip through the builder
+            1 => MonoTextStyleBuilder::from(&self.char_style_plain()).build(),
+            // start from a fully decorated style and reset / overwrite every attribute
+            2 => {
+                let full = MonoTextStyleBuilder::new()
+                    .font(self.font())
+                    .text_color(C::nth(9))
+                    .background_color(C::nth(10))
+                    .underline_with_color(C::nth(11))
+                    .strikethrough()
+                    .build();
+                let mut b = MonoTextStyleBuilder::from(&full);
+                b = match self.text_color {
+                    Some(c) => b.text_color(c),
+                    None => b.reset_text_color(),
+                };
+                b = match self.background {
+                    Some(c) => b.background_color(c),
+                    None => b.reset_background_color(),
+                };
+                b = match self.underline {
+                    DecorationColor::None => b.reset_underline(),
+                    DecorationColor::TextColor => b.underline(),
+                    DecorationColor::Custom(c) => b.underline_with_color(c),
+                };
+                b = match self.strikethrough {
+                    DecorationColor::None => b.reset_strikethrough(),
+                    DecorationColor::TextColor => b.strikethrough(),
+                    DecorationColor::Custom(c) => b.strikethrough_with_color(c),
+                };
+                b.build()
+            }
+            // MonoTextStyle::new and the CharacterStyle setters
+            _ => {
+                let mut st = MonoTextStyle::new(self.font(), C::nth(9));
+                st.set_text_color(self.text_color);
+                st.set_background_color(self.background);
+                st.set_underline_color(self.underline);
+                st.set_strikethrough_color(self.strikethrough);
+                st
+            }
+        }
+    }
     pub fn text_style(&self) -> TextStyle {
-        TextStyleBuilder::new()
-            .alignment(self.alignment)
-            .baseline(self.baseline)
-            .line_height(self.line_height)
-            .build()
+        let plain = TextStyleBuilder::new().alignment(self.alignment).baseline(self.baseline).line_height(self.line_height).build();
+        match self.route & 7 {
+            0 | 1 => plain,
+            2 => TextStyleBuilder::new().line_height(self.line_height).baseline(self.baseline).alignment(self.alignment).build(),
+            3 => TextStyleBuilder::from(&plain).build(),
+            4 => {
+                let base = TextStyleBuilder::new().line_height(self.line_height).build();
+                TextStyleBuilder::from(&base).alignment(self.alignment).baseline(self.baseline).build()
+            }
+            5 => {
+                let mut st = TextStyle::with_alignment(self.alignment);
+                st.baseline = self.baseline;
+                st.line_height = self.line_height;
+                st
+            }
+            6 => {
+                let mut st = TextStyle::with_baseline(self.baseline);
+                st.alignment = self.alignment;
+                st.line_height = self.line_height;
+                st
+            }
+            _ => {
+                let mut st = TextStyle::default();
+                st.alignment = self.alignment;
+                st.baseline = self.baseline;
+                st.line_height = self.line_height;
+                st
+            }
+        }
     }
     pub fn build(&self) -> Text<'_, MonoTextStyle<'static, C>> {
-        Text::with_text_style(&self.text, self.pos, self.char_style(), self.text_style())
+        match (self.route >> 3) & 3 {
+            0 => Text::with_text_style(&self.text, self.pos, self.char_style(), self.text_style()),
+            1 => {
+                let mut t = Text::new(&self.text, self.pos, self.char_style());
+                t.text_style = self.text_style();
+                t
+            }
+            2 => {
+                let mut t = Text::with_alignment(&self.text, self.pos, self.char_style(), self.alignment);
+                t.text_style.baseline = self.baseline;
+                t.text_style.line_height = self.line_height;
+                t
+            }
+            _ => {
+                let mut t = Text::with_baseline(&self.text, self.pos, self.char_style(), self.baseline);
+                t.text_style.alignment = self.alignment;
+                t.text_style.line_height = self.line_height;
+                t
+            }
+        }
     }
     pub fn desc(&self) -> String {
         format!(
-            "Text{{font:{}, text:{:?}, pos:{:?}, text_color:{:?}, background:{:?}, underline:{:?}, strikethrough:{:?}, alignment:{:?}, baseline:{:?}, line_height:{:?}}}",
-            FONTS[self.font].0, self.text, self.pos, self.text_color, self.background, self.underline, self.strikethrough, self.alignment, self.baseline, self.line_height
+            "Text{{font:{}, text:{:?}, pos:{:?}, text_color:{:?}, background:{:?}, underline:{:?}, strikethrough:{:?}, alignment:{:?}, baseline:{:?}, line_height:{:?}}}{}",
+            FONTS[self.font].0, self.text, self.pos, self.text_color, self.background, self.underline, self.strikethrough, self.alignment, self.baseline, self.line_height,
+            if self.route == 0 { String::new() } else { format!(" api_route:{}", self.route) }
         )
     }
 }
@@ -245,10 +339,35 @@ pub fn gen_string(d: &mut Dec, font: usize, max_len: u32, newlines: bool, crlf: 
 }
 
 pub fn gen_decoration<C: Col>(d: &mut Dec, custom: u32) -> DecorationColor<C> {
-    match d.u(0, 3) {
-        0 | 1 => DecorationColor::None,
-        2 => DecorationColor::TextColor,
-        _ => DecorationColor::Custom(C::nth(custom)),
+    // same boundaries as None / None / TextColor / Custom in quarters; the last quarter is split into
+    // an own colour, the text colour given explicitly and the background colour
+    match d.u(0, 15) {
+        0..=7 => DecorationColor::None,
+        8..=11 => DecorationColor::TextColor,
+        12 | 13 => DecorationColor::Custom(C::nth(custom)),
+        14 => DecorationColor::Custom(C::nth(3)),
+        _ => DecorationColor::Custom(C::nth(4)),
+    }
+}
+
+/// Text colour: none in a quarter of the cases, else nth(3), sometimes raw zero / all ones.
+pub fn gen_text_color<C: Col>(d: &mut Dec) -> Option<C> {
+    match d.u(0, 31) {
+        0..=7 => None,
+        30 => Some(C::extreme(false)),
+        31 => Some(C::extreme(true)),
+        _ => Some(C::nth(3)),
+    }
+}
+
+/// Background colour: present in a third of the cases: nth(4), raw zero / all ones, or the text colour.
+pub fn gen_background<C: Col>(d: &mut Dec, text: Option<C>) -> Option<C> {
+    match d.u(0, 23) {
+        0..=15 => None,
+        21 => Some(C::extreme(false)),
+        22 => Some(C::extreme(true)),
+        23 => Some(text.unwrap_or(C::nth(3))),
+        _ => Some(C::nth(4)),
     }
 }
 
@@ -262,17 +381,24 @@ pub fn gen_line_height(d: &mut Dec) -> LineHeight {
 
 pub fn gen_text<C: Col>(d: &mut Dec, r: i32, max_len: u32) -> TextItem<C> {
     let font = d.idx(FONTS.len());
+    let text = gen_string(d, font, max_len, true, true);
+    let text_color = gen_text_color::<C>(d);
     TextItem {
         font,
-        text: gen_string(d, font, max_len, true, true),
-        text_color: if d.ratio(3, 4) { Some(C::nth(3)) } else { None },
-        background: if d.ratio(1, 3) { Some(C::nth(4)) } else { None },
+        text,
+        text_color,
+        background: gen_background(d, text_color),
         underline: gen_decoration(d, 5),
         strikethrough: gen_decoration(d, 6),
         pos: gen::point(d, r),
         alignment: d.pick(&[Alignment::Left, Alignment::Center, Alignment::Right]),
         baseline: d.pick(&[Baseline::Top, Baseline::Bottom, Baseline::Middle, Baseline::Alphabetic]),
         line_height: gen_line_height(d),
+        // auxiliary word 7: half of the cases use the plain builders
+        route: match d.aux_u(7, 0, 255) {
+            0..=127 => 0,
+            r => r,
+        },
     }
 }
 
@@ -361,6 +487,28 @@ impl<C: ImgCol> Item<C> {
             Item::Polyline(p) => Polyline::new(&p.pts).translate(p.offset).into_styled(p.style).draw(t).map(|_| None),
             Item::Image(i) => C::visit_image(i, DrawV(t)).map(|_| None),
             Item::Text(x) => x.build().draw(t).map(Some),
+        }
+    }
+
+    /// The same item placed `by` further away (a new item, not the library's `Transform` on a
+    /// finished drawable: positions / offsets are changed before the drawable is built).
+    pub fn placed(&self, by: Point) -> Item<C> {
+        if by == Point::zero() {
+            return self.clone();
+        }
+        match self {
+            Item::Styled(s, st) => Item::Styled(s.translate(by), *st),
+            Item::Polyline(p) => Item::Polyline(PolyItem { pts: p.pts.clone(), offset: p.offset + by, style: p.style }),
+            Item::Image(i) => {
+                let mut i = i.clone();
+                i.pos += by;
+                Item::Image(i)
+            }
+            Item::Text(x) => {
+                let mut x = x.clone();
+                x.pos += by;
+                Item::Text(x)
+            }
         }
     }
 
